@@ -543,6 +543,11 @@ class C10(TreeSpec):
                 # is shortened so that such names are selected while their history is still shorter than the window
                 short = r.choice([3, 4, 6])
                 for _p, s in drive_engine.trees.strategies(plan["tree"]):
+                    if any(a.get("a") == "WeighMeanVar" for a in s.get("algos", [])):
+                        # (a mean-variance problem estimated from three to six rows is ill-posed: SLSQP gives up with "Positive
+                        # directional derivative for linesearch" - 14 of 129 000 thorough runs; like a constant price series for
+                        # the risk-based weighers this is not well-formed input, the history requirement stays as it was)
+                        continue
                     for a in s.get("algos", []):
                         if a.get("a") == "SelectHasData" and (a.get("kw", {}).get("lookback") or {}).get("days") == 4000:
                             a["kw"]["min_count"] = min(a["kw"]["min_count"], short)
